@@ -84,15 +84,8 @@ where
   }
 
   fn close_internal(&self) {
-    let pinned_map = self.dispatcher.subscriptions.pin();
-    for (_topic, list_arc) in pinned_map.iter() {
-      let subscribers_snapshot = list_arc.reader.enter();
-      for mailbox_weak in subscribers_snapshot.iter() {
-        if let Some(mailbox_strong) = mailbox_weak.upgrade() {
-          mailbox_strong.disconnect();
-        }
-      }
-    }
+    // Only the LAST sender handle to go away disconnects the receivers.
+    self.dispatcher.release_sender();
   }
 
   /// Returns `true` if all receivers for this channel have been dropped.
@@ -239,12 +232,15 @@ where
 
   fn close_internal(&self) {
     if let Some(dispatcher) = self.dispatcher.upgrade() {
-      let topics_to_unsubscribe: Vec<K> = self.subscriptions.lock().drain().collect();
+      // `unsubscribe` consults the local set, so it must still hold the topics.
+      let topics_to_unsubscribe: Vec<K> = self.subscriptions.lock().iter().cloned().collect();
       for topic in topics_to_unsubscribe {
         self.unsubscribe(&topic);
       }
       dispatcher.receiver_count.fetch_sub(1, Ordering::Relaxed);
     }
+    // A closed handle rejects further receives (and holds on to nothing).
+    self.producer_mailbox.close_by_consumer();
   }
 
   pub fn capacity(&self) -> usize {
@@ -299,6 +295,8 @@ where
         closed: AtomicBool::new(false),
       };
 
+      dispatcher.register_mailbox(&new_receiver.producer_mailbox);
+
       for topic in topics_to_subscribe {
         new_receiver.subscribe(topic);
       }
@@ -323,14 +321,10 @@ where
   T: Send + Clone + 'static,
 {
   fn drop(&mut self) {
-    if let Some(dispatcher) = self.dispatcher.upgrade() {
-      let topics_to_unsubscribe: Vec<K> = self.subscriptions.lock().drain().collect();
-
-      for topic in topics_to_unsubscribe {
-        self.unsubscribe(&topic);
-      }
-
-      dispatcher.receiver_count.fetch_sub(1, Ordering::Relaxed);
+    // A handle that was already close()d has released its count and its
+    // subscriptions; doing it again would underflow `receiver_count`.
+    if !self.closed.swap(true, Ordering::AcqRel) {
+      self.close_internal();
     }
   }
 }
